@@ -187,12 +187,18 @@ def de_correspondence(ctx, res, by, qs, items, dd, st):
     model = S.de_model(res, [(qi, text) for qi, text, _ in allc])
     # the acceptance theorem on these very cases: inside its hypotheses every member is read (never a contradiction), and
     # the real serde_json::from_str must agree
-    inst = allc[:300 if ctx.quick else 3000]
+    # (the theorem's fragment is wider than C01's `plain` scope: optional fields; the witnesses of every other type are offered
+    # too, Coq decides which lie inside the hypotheses)
+    in_sc = {(qi, text) for qi, text, _ in allc}
+    extra = [(qi, text, dd.get((qi, k))) for qi, k, text in items
+             if (qi, text) not in in_sc and dd.get((qi, k)) is not None and not CR.big_array(qs[qi]) and not dup_keys(S.parse_json(text))]
+    nq = 200 if ctx.quick else 2000
+    inst = allc[:nq] + extra[:nq]
     hyp, nr2, codes = S.de_theorem_instances(res, [(qi, text) for qi, text, _ in inst])
     st["thm_env_hypotheses_hold"] = st.get("thm_env_hypotheses_hold", 0) + hyp
     st["thm_env_definitions"] = st.get("thm_env_definitions", 0) + nr2
     if not hyp:
-        raise vlib.HarnessError("C02_members_are_accepted: the shrunk corpus environment does not satisfy plain_envb && de_envb")
+        raise vlib.HarnessError("C02_members_are_accepted: the shrunk corpus environment does not satisfy de_envb")
     for (qi, text, real), c in zip(inst, codes):
         key = {0: "thm_outside_hypotheses", 1: "thm_member_accepted", 2: "thm_member_rejected", 3: "thm_not_a_member"}[c]
         st[key] = st.get(key, 0) + 1
